@@ -77,14 +77,14 @@ Qed.
 
 (* what every step that is not a dispatch invocation does, seen from the list of (cn, lv) *)
 Definition ext (cn : cbname) (lv : ckey) (s s' : rst) : Prop :=
-  exists new, rlog s' = new ++ rlog s /\ disp_of new = [] /\ rbad s' = rbad s /\ rcache s' = rcache s /\
+  exists new, rlog s' = new ++ rlog s /\ disp_of new = [] /\ rcache s' = rcache s /\
     forall c0, cnt c0 (rcbs s' cn lv) <= cnt c0 (rcbs s cn lv) + added c0 cn lv new.
 
 Lemma ext_refl : forall cn lv s, ext cn lv s s.
 Proof. intros; exists []; repeat split; auto; intros; simpl; unfold added; simpl; lia. Qed.
 Lemma ext_trans : forall cn lv a b c, ext cn lv a b -> ext cn lv b c -> ext cn lv a c.
 Proof.
-  intros cn lv a b c [n1 [L1 [D1 [B1 [C1 K1]]]]] [n2 [L2 [D2 [B2 [C2 K2]]]]].
+  intros cn lv a b c [n1 [L1 [D1 [C1 K1]]]] [n2 [L2 [D2 [C2 K2]]]].
   exists (n2 ++ n1). rewrite L2, L1, app_assoc, disp_of_app, D1, D2. repeat split; try congruence.
   intros c0. rewrite added_app. specialize (K1 c0). specialize (K2 c0). lia.
 Qed.
@@ -124,12 +124,19 @@ Proof.
   eapply ext_trans; [|apply IH].
   destruct a; simpl; [apply ext_register|apply ext_unregister].
 Qed.
+(* once popped, always popped *)
+Lemma orph_mono : forall W cn lv acts so, snd (fold_left (do_act W cn lv) acts so) = false -> snd so = false.
+Proof.
+  induction acts as [|a acts IH]; intros so H; simpl in H; [exact H|].
+  apply IH in H. destruct a; simpl in H; [exact H|].
+  apply orb_false_iff in H. tauto.
+Qed.
 
 Lemma ext_herr_step : forall W cn lv s c, ext cn lv s (rherr_step W s c).
 Proof.
   intros. unfold rherr_step, rinvoke.
   set (s1 := {| rcache := rcache s; rcbs := rcbs s; rlog := RErr c (r_fin (W (rctr s))) :: rlog s;
-                rctr := S (rctr s); rbad := rbad s |}).
+                rctr := S (rctr s) |}).
   assert (E1 : ext cn lv s s1).
   { exists [RErr c (r_fin (W (rctr s)))]. simpl. repeat split; auto. intros; unfold added; simpl; lia. }
   destruct (r_fin (W (rctr s))); try exact E1.
@@ -145,83 +152,90 @@ Qed.
 Lemma ext_herr : forall W cn lv s, ext cn lv s (rcallback_herr W s).
 Proof. intros; apply ext_herr_fold. Qed.
 
-(* the loop of one dispatch: start state s, callbacks done so far *)
-Definition dinv (cn : cbname) (lv : ckey) (pk : key) (e : entry) (s : rst) (done : list nat) (s' : rst) : Prop :=
+Lemma mem_false_cnt : forall c l, mem_nat c l = false -> cnt c l = 0.
+Proof.
+  induction l as [|x l IH]; simpl; intros H; [reflexivity|].
+  apply orb_false_iff in H. destruct H as [E H]. unfold cnt in *; simpl; rewrite E; apply IH; exact H.
+Qed.
+
+(* the loop of one dispatch: start state s, callbacks done so far, current state s' and whether the held list object
+   has been popped (orph); extra = the UnregisterCallback of the invocation in progress, not yet treated *)
+Definition dcore (cn : cbname) (lv : ckey) (pk : key) (e : entry) (s : rst) (done : list nat) (s' : rst) (orph : bool)
+  (extra : nat -> nat) : Prop :=
   exists new, rlog s' = new ++ rlog s /\
     rev (disp_of new) = map (fun c => (c, cn, lv, pk, e)) done /\
     rcache s' = rcache s /\
-    (rbad s' = true \/
-     forall c0, cnt c0 (rcbs s' cn lv) + raised c0 new <= cnt c0 (rcbs s cn lv) + added c0 cn lv new).
+    (forall c0, cnt c0 (rcbs s' cn lv) <= cnt c0 (rcbs s cn lv) + added c0 cn lv new) /\
+    (forall c0, orph = false -> added c0 cn lv new = 0 ->
+       cnt c0 (rcbs s' cn lv) <= cnt c0 (rcbs s cn lv) - (raised c0 new - extra c0)).
+Definition dinv cn lv pk e s done (so : rst * bool) : Prop := dcore cn lv pk e s done (fst so) (snd so) (fun _ => 0).
 
-Lemma dinv_ext : forall cn lv pk e s done a b, dinv cn lv pk e s done a -> ext cn lv a b -> dinv cn lv pk e s done b.
+Lemma dcore_ext : forall cn lv pk e s done a b orph extra,
+  dcore cn lv pk e s done a orph extra -> ext cn lv a b -> dcore cn lv pk e s done b orph extra.
 Proof.
-  intros cn lv pk e s done a b [n1 [L1 [D1 [C1 K1]]]] [n2 [L2 [D2 [B2 [C2 K2]]]]].
+  intros cn lv pk e s done a b orph extra [n1 [L1 [D1 [C1 [K1 J1]]]]] [n2 [L2 [D2 [C2 K2]]]].
   exists (n2 ++ n1). rewrite L2, L1, app_assoc, disp_of_app, D2. simpl. repeat split; try congruence.
-  destruct K1 as [K1|K1]; [left; congruence|right].
-  intros c0. rewrite raised_app, added_app, (raised_nodisp c0 n2 D2).
-  specialize (K1 c0). specialize (K2 c0). lia.
+  - intros c0. rewrite added_app. specialize (K1 c0). specialize (K2 c0). lia.
+  - intros c0 O A. rewrite added_app in A. rewrite raised_app, (raised_nodisp c0 n2 D2).
+    specialize (J1 c0 O). specialize (K2 c0). lia.
 Qed.
 
 Lemma upd_step_inv : forall W cn lv pk e s done so c,
-  dinv cn lv pk e s done (fst so) -> dinv cn lv pk e s (done ++ [c]) (fst (rupd_step W cn lv pk e so c)).
+  dinv cn lv pk e s done so -> dinv cn lv pk e s (done ++ [c]) (rupd_step W cn lv pk e so c).
 Proof.
   intros W cn lv pk e s done so c I.
-  unfold rupd_step, rinvoke.
+  unfold dinv, rupd_step, rinvoke.
   set (b := W (rctr (fst so))).
   set (s1 := {| rcache := rcache (fst so); rcbs := rcbs (fst so);
                 rlog := RDisp c cn lv pk e (r_fin b) :: rlog (fst so);
-                rctr := S (rctr (fst so)); rbad := rbad (fst so) |}).
+                rctr := S (rctr (fst so)) |}).
   set (so2 := fold_left (do_act W cn lv) (r_acts b) (s1, snd so)).
   assert (E2 : ext cn lv s1 (fst so2)) by (apply (ext_acts W cn lv (r_acts b) (s1, snd so))).
-  cbv zeta. simpl fst.
-  (* the state after the invocation itself, before what its exception does *)
-  assert (I1 : exists new, rlog s1 = new ++ rlog s /\
-                 rev (disp_of new) = map (fun c => (c, cn, lv, pk, e)) (done ++ [c]) /\
-                 rcache s1 = rcache s /\
-                 (rbad s1 = true \/
-                  forall c0, cnt c0 (rcbs s1 cn lv) + raised c0 new <=
-                             cnt c0 (rcbs s cn lv) + added c0 cn lv new +
-                             (match r_fin b with BUnreg => if Nat.eqb c0 c then 1 else 0 | _ => 0 end))).
-  { destruct I as [n [L [D [C K]]]].
+  assert (OM : snd so2 = false -> snd so = false) by (apply (orph_mono W cn lv (r_acts b) (s1, snd so))).
+  cbv zeta. simpl fst. simpl snd.
+  set (extra := fun c0 => match r_fin b with BUnreg => if Nat.eqb c0 c then 1 else 0 | _ => 0 end).
+  assert (I2 : dcore cn lv pk e s (done ++ [c]) (fst so2) (snd so2) extra).
+  { eapply dcore_ext; [|exact E2].
+    destruct I as [n [L [D [C [K J]]]]].
     exists (RDisp c cn lv pk e (r_fin b) :: n). simpl. rewrite L, D, map_app. repeat split; auto.
-    destruct K as [K|K]; [left; exact K|right].
-    intros c0. specialize (K c0). unfold raised, added in *. simpl.
-    destruct (r_fin b); simpl; try lia. destruct (Nat.eqb c0 c); simpl; lia. }
+    intros c0 O A. specialize (J c0). unfold raised, added, extra in *. simpl in *.
+    destruct (r_fin b); simpl; try (apply J; auto; fail).
+    destruct (Nat.eqb c0 c); simpl; specialize (J (OM O) A); lia. }
   destruct (r_fin b) eqn:F.
   - (* returns *)
-    eapply dinv_ext; [|exact E2].
-    destruct I1 as [n [L [D [C K]]]]. exists n. repeat split; auto.
-    destruct K as [K|K]; [left; exact K|right]. intros c0. specialize (K c0). lia.
+    destruct I2 as [n [L [D [C [K J]]]]]. exists n.
+    split; [exact L|split; [exact D|split; [exact C|split; [exact K|]]]].
+    intros c0 O A. specialize (J c0 O A). unfold extra in J. lia.
   - (* UnregisterCallback *)
-    destruct E2 as [n2 [L2 [D2 [B2 [C2 K2]]]]].
-    destruct I1 as [n [L [D [C K]]]].
+    destruct I2 as [n [L [D [C [K J]]]]].
     destruct (snd so2 || negb (mem_nat c (rcbs (fst so2) cn lv))) eqn:G.
-    + exists (n2 ++ n). simpl. rewrite L2, L, app_assoc, disp_of_app, D2. simpl. repeat split; try congruence.
-      left; reflexivity.
+    + exists n. split; [exact L|split; [exact D|split; [exact C|split; [exact K|]]]].
+      intros c0 O A. specialize (J c0 O A). unfold extra in J. rewrite O in G. simpl in G.
+      apply negb_true_iff in G.
+      destruct (Nat.eqb c0 c) eqn:Ec; [|lia].
+      apply Nat.eqb_eq in Ec; subst c0. rewrite (mem_false_cnt c _ G). lia.
     + apply orb_false_iff in G. destruct G as [_ G]. apply negb_false_iff in G.
-      exists (n2 ++ n). simpl rlog. simpl rcache. simpl rbad.
-      rewrite L2, L, app_assoc, disp_of_app, D2. simpl app. repeat split; try congruence.
-      destruct K as [K|K]; [left; congruence|right].
-      intros c0. specialize (K c0). specialize (K2 c0).
-      rewrite raised_app, added_app, (raised_nodisp c0 n2 D2).
-      change (rcbs (r_setcbs (fst so2) cn lv (remove1 c (rcbs (fst so2) cn lv))) cn lv)
-        with (if cbname_eqb cn cn && ckey_eqb lv lv then remove1 c (rcbs (fst so2) cn lv) else rcbs (fst so2) cn lv).
       assert (R : cbname_eqb cn cn && ckey_eqb lv lv = true).
       { apply andb_true_iff; split; [apply cbname_eqb_eq|apply ckey_eqb_eq]; reflexivity. }
-      rewrite R.
-      destruct (Nat.eqb c0 c) eqn:Ec.
-      * apply Nat.eqb_eq in Ec; subst c0. pose proof (cnt_remove1_mem c _ G). lia.
-      * apply Nat.eqb_neq in Ec. rewrite (cnt_remove1_other c0 c _ Ec). lia.
+      exists n. simpl rlog. simpl rcache.
+      change (rcbs (r_setcbs (fst so2) cn lv (remove1 c (rcbs (fst so2) cn lv))) cn lv)
+        with (if cbname_eqb cn cn && ckey_eqb lv lv then remove1 c (rcbs (fst so2) cn lv) else rcbs (fst so2) cn lv).
+      rewrite R. split; [exact L|split; [exact D|split; [exact C|split]]].
+      * intros c0. specialize (K c0). pose proof (cnt_remove1_le c0 c (rcbs (fst so2) cn lv)). lia.
+      * intros c0 O A. specialize (J c0 O A). unfold extra in J.
+        destruct (Nat.eqb c0 c) eqn:Ec.
+        -- apply Nat.eqb_eq in Ec; subst c0. pose proof (cnt_remove1_mem c _ G). lia.
+        -- apply Nat.eqb_neq in Ec. rewrite (cnt_remove1_other c0 c _ Ec). lia.
   - (* another exception: handleError callbacks *)
-    eapply dinv_ext; [|apply ext_herr].
-    eapply dinv_ext; [|exact E2].
-    destruct I1 as [n [L [D [C K]]]]. exists n. repeat split; auto.
-    destruct K as [K|K]; [left; exact K|right]. intros c0. specialize (K c0). lia.
+    eapply dcore_ext; [|apply ext_herr].
+    destruct I2 as [n [L [D [C [K J]]]]]. exists n.
+    split; [exact L|split; [exact D|split; [exact C|split; [exact K|]]]].
+    intros c0 O A. specialize (J c0 O A). unfold extra in J. lia.
 Qed.
 
 Lemma upd_fold_inv : forall W cn lv pk e s copy done so,
-  dinv cn lv pk e s done (fst so) ->
-  dinv cn lv pk e s (done ++ copy) (fst (fold_left (rupd_step W cn lv pk e) copy so)).
+  dinv cn lv pk e s done so ->
+  dinv cn lv pk e s (done ++ copy) (fold_left (rupd_step W cn lv pk e) copy so).
 Proof.
   induction copy as [|c copy IH]; intros done so I; simpl.
   - rewrite app_nil_r; exact I.
@@ -234,17 +248,18 @@ Lemma callback_reentrant : forall W cn lv pk e s,
   exists new, rlog (rcallback W cn lv pk e s) = new ++ rlog s /\
     rev (disp_of new) = map (fun c => (c, cn, lv, pk, e)) (rcbs s cn lv) /\
     rcache (rcallback W cn lv pk e s) = rcache s /\
-    (rbad (rcallback W cn lv pk e s) = false ->
-     forall c0, cnt c0 (rcbs (rcallback W cn lv pk e s) cn lv) + raised c0 new <=
-                cnt c0 (rcbs s cn lv) + added c0 cn lv new).
+    (forall c0, cnt c0 (rcbs (rcallback W cn lv pk e s) cn lv) <= cnt c0 (rcbs s cn lv) + added c0 cn lv new) /\
+    (forall c0, rpopped W cn lv pk e s = false -> added c0 cn lv new = 0 ->
+       cnt c0 (rcbs (rcallback W cn lv pk e s) cn lv) <= cnt c0 (rcbs s cn lv) - raised c0 new).
 Proof.
-  intros. unfold rcallback.
-  assert (I0 : dinv cn lv pk e s [] (fst (s, false))).
-  { exists []. simpl. split; [reflexivity|split; [reflexivity|split; [reflexivity|]]].
-    right. intros; unfold raised, added; simpl; lia. }
-  pose proof (upd_fold_inv W cn lv pk e s (rcbs s cn lv) [] (s, false) I0) as [n [L [D [C K]]]].
+  intros. unfold rcallback, rpopped, rcallback2.
+  assert (I0 : dinv cn lv pk e s [] (s, false)).
+  { exists []. simpl. split; [reflexivity|split; [reflexivity|split; [reflexivity|split]]].
+    - intros; unfold added; simpl; lia.
+    - intros; unfold raised; simpl; lia. }
+  pose proof (upd_fold_inv W cn lv pk e s (rcbs s cn lv) [] (s, false) I0) as [n [L [D [C [K J]]]]].
   simpl in D. exists n. repeat split; auto.
-  intros NB. destruct K as [K|K]; [congruence|exact K].
+  intros c0 O A. specialize (J c0 O A). lia.
 Qed.
 
 Lemma cnt_zero_notin : forall c l, cnt c l = 0 -> ~ In c l.
@@ -256,17 +271,16 @@ Proof.
 Qed.
 
 (* a callback that raised UnregisterCallback as often as it was registered, and was not registered again meanwhile,
-   is gone from the list *)
+   is gone from the list (unless the list object was popped from the dict during the dispatch) *)
 Lemma oneshot_gone : forall W cn lv pk e s c0,
-  rbad (rcallback W cn lv pk e s) = false ->
   exists new, rlog (rcallback W cn lv pk e s) = new ++ rlog s /\
-    (cnt c0 (rcbs s cn lv) <= raised c0 new -> added c0 cn lv new = 0 ->
+    (rpopped W cn lv pk e s = false -> cnt c0 (rcbs s cn lv) <= raised c0 new -> added c0 cn lv new = 0 ->
      ~ In c0 (rcbs (rcallback W cn lv pk e s) cn lv)).
 Proof.
-  intros W cn lv pk e s c0 NB.
-  destruct (callback_reentrant W cn lv pk e s) as [new [L [_ [_ K]]]].
-  exists new. split; [exact L|]. intros H1 H2. apply cnt_zero_notin.
-  specialize (K NB c0). lia.
+  intros W cn lv pk e s c0.
+  destruct (callback_reentrant W cn lv pk e s) as [new [L [_ [_ [_ J]]]]].
+  exists new. split; [exact L|]. intros O H1 H2. apply cnt_zero_notin.
+  specialize (J c0 O H2). lia.
 Qed.
 
 (* a callback that is not in the list of a level is not dispatched by that level, whatever the others do *)
@@ -281,6 +295,31 @@ Proof.
   apply in_rev in I. rewrite D in I. apply in_map_iff in I. destruct I as [c [E I]].
   inversion E; subst. contradiction.
 Qed.
+
+(* the list object is popped only by an unregister_callback made from inside the dispatch for the same list *)
+Definition unreg_on (cn : cbname) (lv : ckey) (a : act) : bool :=
+  match a with AcUnreg k' cn' _ => cbname_eqb cn cn' && ckey_eqb lv k' | _ => false end.
+Lemma acts_no_pop : forall W cn lv acts so,
+  forallb (fun a => negb (unreg_on cn lv a)) acts = true -> snd (fold_left (do_act W cn lv) acts so) = snd so.
+Proof.
+  induction acts as [|a acts IH]; intros so H; simpl in *; [reflexivity|].
+  apply andb_true_iff in H. destruct H as [H1 H2]. rewrite (IH _ H2).
+  destruct a; simpl in *; [reflexivity|].
+  apply negb_true_iff in H1. rewrite H1. simpl. apply orb_false_r.
+Qed.
+
+Lemma upd_fold_no_pop : forall W cn lv pk e,
+  (forall n, forallb (fun a => negb (unreg_on cn lv a)) (r_acts (W n)) = true) ->
+  forall copy so, snd (fold_left (rupd_step W cn lv pk e) copy so) = snd so.
+Proof.
+  intros W cn lv pk e H. induction copy as [|c copy IH]; intros so; simpl; [reflexivity|].
+  rewrite IH. unfold rupd_step, rinvoke. cbv zeta. simpl snd.
+  rewrite (acts_no_pop W cn lv (r_acts (W (rctr (fst so))))); [reflexivity|apply H].
+Qed.
+Lemma no_inner_unregister_no_pop : forall W cn lv pk e s,
+  (forall n, forallb (fun a => negb (unreg_on cn lv a)) (r_acts (W n)) = true) ->
+  rpopped W cn lv pk e s = false.
+Proof. intros. unfold rpopped, rcallback2. rewrite upd_fold_no_pop; auto. Qed.
 
 (* the log only grows: arrival order *)
 Lemma rcallback_log : forall W cn lv pk e s, exists new, rlog (rcallback W cn lv pk e s) = new ++ rlog s.
